@@ -107,6 +107,9 @@ def place(case, prot: dict, unprot: dict, rec: dict, consume_generated: bool):
 def run_case(case) -> str:
     mode, op, ser = case["mode"], case["op"], case["ser"]
     alg, enc = MODES[mode]
+    # the process is one in which the draft algorithms have been imported (an application that speaks ECDH-1PU as well):
+    # what another algorithm registers for itself is none of this algorithm's business
+    import joserfc.drafts.jwe_ecdh_1pu, joserfc.drafts.jwe_chacha20  # noqa
     try:
         reg = make_registry(case)
         if mode in ("jws", "jws7797"):
@@ -228,7 +231,7 @@ def run(ctx: Ctx) -> None:
     if thorough:
       ctx.tlc_many([("HeaderCheck", "HeaderCheck_dev_" + d, {"timeout": 600, "expect_violation": True})
                   for d in ("CritNotChecked", "StrictIgnoredOnConsume", "CheckMoreNotPassed", "RequiredCustomIgnored",
-                            "B64CritNotRequired", "BoolIsInt", "TypesUncheckedInJson", "StopAtFirstUsable", "StaleHeaderSnapshot", "CallerOverrideIgnored")], par=10)
+                            "B64CritNotRequired", "BoolIsInt", "TypesUncheckedInJson", "StopAtFirstUsable", "StaleHeaderSnapshot", "CallerOverrideIgnored", "ForeignAlgParamsRegistered")], par=10)
     cases = []
     for r in rs:
         seen = set()
